@@ -4,3 +4,4 @@ pub mod shape;
 pub mod parse;
 pub mod group;
 pub mod eg;
+pub mod meta;
